@@ -37,7 +37,26 @@ fn gen_case(c: &mut Choices) -> Case {
         // included output itself loses its final line ending
         ..GenParams::default()
     };
-    let project = gen_project(c, &p);
+    let mut project = gen_project(c, &p);
+    if c.chance(1, 3) {
+        // tiny sources: every final-state class in its smallest form (a whole output that is
+        // exactly one line ending, or nothing at all)
+        let k = c.below(9);
+        let (name, text): (&str, &str) = match k {
+            0 => ("tiny0.txt.txtpp", "\n"),
+            1 => ("tiny1.txt.txtpp", "\r\n"),
+            2 => ("tiny2.txt.txtpp", ""),
+            3 => ("tiny3.txt.txtpp", "TXTPP#include tiny-empty.txt"),
+            4 => ("tiny4.txt.txtpp", "-TXTPP#run true\n"),
+            5 => ("tiny5.txt.txtpp", "x"),
+            6 => ("tiny6.txt.txtpp", "TXTPP#include tiny-nl.txt\n"),
+            7 => ("tiny7.txt.txtpp", "-TXTPP#write\n"),
+            _ => ("tiny8.txt.txtpp", "-TXTPP#\n"),
+        };
+        project.put(name, text);
+        project.put("tiny-empty.txt", "");
+        project.put("tiny-nl.txt", "\n");
+    }
     Case {
         project,
         mode: if c.chance(1, 3) { ModeS::Needed } else { ModeS::Build },
@@ -181,7 +200,7 @@ impl Prop for C13 {
         PropMeta {
             id: "C13",
             level: "exploration",
-            rule: "cases = generated projects (1-3 sources) built twice in the same root, with trailing newline on and off (Build or --needed); oracle = pair relation: same verdict; same set of generated files; every output satisfies on == off or on == off + line ending; temp files identical; if the source's last item is an ordinary text line L and the source has no tag directive, on ends with L + ending and off ends with L. Non-trivial = every compared pair; distinct by (source text, mode); classes = final-state class of the source (text/blank/each directive kind at EOF x final newline present x LF/CRLF).",
+            rule: "cases = generated projects (1-3 sources, plus tiny sources whose whole output is exactly one line ending or nothing) built twice in the same root, with trailing newline on and off (Build or --needed), in either order, the second build from a clean tree or over the files of the first; oracle = pair relation: same verdict; same set of generated files; every output satisfies on == off or on == off + line ending; temp files identical; if the source's last item is an ordinary text line L and the source has no tag directive, on ends with L + ending and off ends with L. Non-trivial = every compared pair; distinct by (source text, mode); classes = final-state class of the source (text/blank/each directive kind at EOF x final newline present x LF/CRLF).",
             assumptions: vec!["the final-state class and 'last item is a text line' are decided by the reference grammar"],
             hang_is_violation: false,
             needs_cli: false,
